@@ -169,4 +169,111 @@ theorem head_tokens (o : ObjSpelling) (h : o.wf) :
   rw [hh, hnl]
   simp [tokVals]
 
+/-! ### mode-tracking companion of `LexUnit` (round 6d)
+
+`LexUnit s ts false` speaks about token VALUES for every continuation.  That is enough to pin the scanner
+state after `s` down to a `Complete` one: from a scanner that is inside a string, a hexadecimal string or a
+comment (or behind a lone `<`, or dead) the continuations ` 1 ` and ` 2 ` yield the SAME tokens (none but
+what the first blank yields), whereas the unit says they yield `ts ++ [1]` and `ts ++ [2]`. -/
+
+/-- the scanners that swallow ` 1 ` / ` 2 ` without a token -/
+def Swallow : Mode → Bool
+  | .comment | .string | .hexstring | .dead => true
+  | _ => false
+
+theorem blank_swallow (s : St) (p : Nat) (h : Complete s.mode = false) : Swallow (stepByte s 32 p).1.mode = true := by
+  have f1 : isEOL 32 = false := by decide +kernel
+  have f2 : isEND_STRING 32 = false := by decide +kernel
+  have f3 : isEND_HEX_STRING 32 = false := by decide +kernel
+  have f4 : isOCT_STRING 32 = false := by decide +kernel
+  have f5 : escLookup 32 = none := by decide +kernel
+  obtain ⟨m, cur, tp, par, oct, hex⟩ := s
+  cases m <;> simp [Complete] at h
+  · simp [stepByte, stepN, searchClass, accum, f1, Swallow]
+  · simp [stepByte, stepN, searchClass, accum, f2, Swallow]
+  · by_cases ho : oct = []
+    · subst ho; simp [stepByte, stepN, searchClass, atHit, parseString1Hit, f4, f5, Swallow]
+    · cases hp : pyIntBase 8 oct <;>
+        simp [stepByte, stepN, searchClass, atHit, parseString1Hit, raise, f4, f5, ho, hp, accum, f2, Swallow]
+  · simp [stepByte, stepN, searchClass, atHit, parseString2Hit, accum, f2, Swallow]
+  · simp [stepByte, stepN, searchClass, atHit, parseWopenHit, accum, f3, Swallow]
+  · simp [stepByte, stepN, searchClass, accum, f3, Swallow]
+  · simp [stepByte, stepN, searchClass, atHit, Swallow]
+
+theorem swallow_step (s : St) (c : UInt8) (p : Nat) (h : Swallow s.mode = true)
+    (f1 : isEOL c = false) (f2 : isEND_STRING c = false) (f3 : isEND_HEX_STRING c = false) :
+    (stepByte s c p).2 = [] ∧ Swallow (stepByte s c p).1.mode = true := by
+  obtain ⟨m, cur, tp, par, oct, hex⟩ := s
+  cases m <;> simp [Swallow] at h
+  · simp [stepByte, stepN, searchClass, accum, f1, Swallow]
+  · simp [stepByte, stepN, searchClass, accum, f2, Swallow]
+  · simp [stepByte, stepN, searchClass, accum, f3, Swallow]
+  · simp [stepByte, stepN, searchClass, atHit, Swallow]
+
+theorem swallow_nl (s : St) (p : Nat) (h : Swallow s.mode = true) : (stepByte s 10 p).2 = [] := by
+  have e4 : isEOL 10 = true := by decide +kernel
+  have g4 : isEND_STRING 10 = false := by decide +kernel
+  have x4 : isEND_HEX_STRING 10 = false := by decide +kernel
+  have n1 : isNONSPC 10 = false := by decide +kernel
+  obtain ⟨m, cur, tp, par, oct, hex⟩ := s
+  cases m <;> simp [Swallow] at h
+  · simp [stepByte, stepN, searchClass, accum, atHit, parseCommentHit, e4, n1]
+  · simp [stepByte, stepN, searchClass, accum, g4]
+  · simp [stepByte, stepN, searchClass, accum, x4]
+  · simp [stepByte, stepN, searchClass, atHit]
+
+theorem swallow_digit (s : St) (c : UInt8) (p : Nat) (h : Swallow s.mode = true) (hc : c = 49 ∨ c = 50) :
+    (foldBytes s [c, 32, 10] p).2 = [] := by
+  have a1 := swallow_step s c p h (by rcases hc with rfl | rfl <;> decide +kernel)
+    (by rcases hc with rfl | rfl <;> decide +kernel) (by rcases hc with rfl | rfl <;> decide +kernel)
+  have a2 := swallow_step (stepByte s c p).1 32 (p + 1) a1.2 (by decide +kernel) (by decide +kernel) (by decide +kernel)
+  have a3 := swallow_nl (stepByte (stepByte s c p).1 32 (p + 1)).1 (p + 1 + 1) a2.2
+  simp [foldBytes, a1.1, a2.1, a3]
+
+/-- from a hand-over state the rest of the input is read as from a fresh lexer (token values) -/
+theorem ho_fresh' (st : St) (h : HO st) (d : UInt8) (tl : Bytes) (p : Nat) (hd : d ≠ 62) :
+    tokVals (foldBytes st (d :: tl) p).2 = tokVals (foldBytes St.init (d :: tl) 0).2 := by
+  have key : ∀ s : St, s.mode = .main → tokVals (foldBytes s (d :: tl) p).2 = tokVals (foldBytes St.init (d :: tl) 0).2 := by
+    intro s hs
+    have := (foldBytes_rel p (d :: tl) s St.init 0 (rel_main p s St.init hs rfl)).1
+    rw [Nat.zero_add] at this
+    rw [this]
+    simp [tokVals, shiftToks]
+  rcases h with hm | hw
+  · exact key st hm
+  · rw [fold_from_wclose st d tl p hw hd]
+    exact key _ rfl
+
+/-- The companion: a piece that is a `LexUnit` not ending in a regular run leaves the scanner, from the
+    initial state, in a `Complete` state. -/
+theorem unit_complete (s : Bytes) (ts : List Token) (hu : LexUnit s ts false) :
+    Complete (foldBytes St.init s 0).1.mode = true := by
+  cases hC : Complete (foldBytes St.init s 0).1.mode with
+  | true => rfl
+  | false =>
+    exfalso
+    have side : ∀ c : UInt8, c = 49 ∨ c = 50 →
+        ts ++ tokVals (foldBytes St.init [32, c, 32, 10] 0).2 =
+          tokVals (foldBytes St.init s 0).2 ++ tokVals (stepByte (foldBytes St.init s 0).1 32 (0 + s.length)).2 := by
+      intro c hc
+      obtain ⟨st', hHO, hh⟩ := hu St.init 32 [c, 32, 10] 0 (Or.inl rfl) (fun hx => by cases hx)
+      rw [ho_fresh' st' hHO 32 [c, 32, 10] _ (by decide)] at hh
+      rw [← hh, foldBytes_append]
+      have hsw := blank_swallow (foldBytes St.init s 0).1 (0 + s.length) hC
+      have hz := swallow_digit (stepByte (foldBytes St.init s 0).1 32 (0 + s.length)).1 c (0 + s.length + 1) hsw hc
+      have hcons : (foldBytes (foldBytes St.init s 0).1 (32 :: [c, 32, 10]) (0 + s.length)).2 =
+          (stepByte (foldBytes St.init s 0).1 32 (0 + s.length)).2 ++
+            (foldBytes (stepByte (foldBytes St.init s 0).1 32 (0 + s.length)).1 [c, 32, 10] (0 + s.length + 1)).2 := rfl
+      rw [hcons, hz]
+      simp [tokVals]
+    have h1 := side 49 (Or.inl rfl)
+    have h2 := side 50 (Or.inr rfl)
+    have v1 : tokVals (foldBytes St.init [32, 49, 32, 10] 0).2 = [Token.int 1] := by decide +kernel
+    have v2 : tokVals (foldBytes St.init [32, 50, 32, 10] 0).2 = [Token.int 2] := by decide +kernel
+    rw [v1] at h1
+    rw [v2] at h2
+    have := h1.trans h2.symm
+    have := List.append_cancel_left this
+    simp at this
+
 end PdfVerif.StreamSeam
